@@ -83,7 +83,7 @@ def rank_profiles(draw, n, r_max=6, families=RANK_FAMILIES, entries_max=2500):
 
 @st.composite
 def tt_specs(draw, d_min=2, d_max=6, n_min=1, n_max=5, r_max=6, size_max=4096,
-             families=FAMILIES, rank_families=RANK_FAMILIES, shape=None, entries_max=2500):
+             families=FAMILIES, rank_families=RANK_FAMILIES, shape=None, entries_max=2500, int_storage=False):
     n = list(shape) if shape is not None else draw(shapes(d_min, d_max, n_min, n_max, size_max))
     rfam, r = draw(rank_profiles(n, r_max, rank_families, entries_max))
     fam = draw(st.sampled_from(list(families)))
@@ -102,6 +102,11 @@ def tt_specs(draw, d_min=2, d_max=6, n_min=1, n_max=5, r_max=6, size_max=4096,
             spec["cores"] = [[draw(val) for _ in range(r[k] * n[k] * r[k + 1])] for k in range(d)]
             return spec
     spec["seed"] = draw(seeds)
+    if int_storage and fam == "smallint":
+        # small-integer cores kept in integer arrays (all cores, or every other one): the same denoted tensor, another storage type
+        store = draw(st.sampled_from(["float64", "int64", "int32", "mixed", "int64"]))
+        if store != "float64":
+            spec["store"] = store
     if fam == "scaled":
         spec["exp"] = [draw(st.integers(-30, 30)) for _ in range(d)]
     if fam in ("rank_deficient", "zero"):
@@ -122,8 +127,12 @@ def relayout(x, layout):
     return x
 
 
-def build_tt(spec):
+def build_tt(spec, as_float=False):
+    """as_float=True: the float64 copy of a tensor whose spec asks for integer storage (the reference side of an oracle)"""
     Y = _build_tt(spec)
+    store = spec.get("store")
+    if store and not as_float:
+        Y = [G.astype(np.int64 if store == "mixed" else store) if (store != "mixed" or k % 2 == 0) else G for k, G in enumerate(Y)]
     lay = spec.get("layout", "C")
     return [relayout(G, lay) for G in Y] if lay != "C" else Y
 
